@@ -74,6 +74,17 @@ class Closure:
         self.env = env
         self.bound_self = bound_self
 
+    # a function object is the same object every time its name is evaluated (the evaluator makes a new Closure each time): module-level
+    # functions and methods looked up on the same object compare - and hash - as one
+    def _key(self):
+        return (id(self.func), id(self.env) if self.func.parent is not None else 0, id(self.bound_self))
+
+    def __eq__(self, other):
+        return isinstance(other, Closure) and self._key() == other._key()
+
+    def __hash__(self):
+        return hash(self._key())
+
     def __repr__(self):
         return f"<closure {self.func.short}>"
 
@@ -832,9 +843,9 @@ class Interp:
     def compare(self, op, a, b):
         try:
             if isinstance(op, ast.Is):
-                return a is b
+                return a is b or (isinstance(a, Closure) and isinstance(b, Closure) and a.bound_self is None and a == b)
             if isinstance(op, ast.IsNot):
-                return a is not b
+                return not (a is b or (isinstance(a, Closure) and isinstance(b, Closure) and a.bound_self is None and a == b))
             if isinstance(op, ast.Eq):
                 return a == b
             if isinstance(op, ast.NotEq):
@@ -1026,6 +1037,9 @@ class Interp:
                 import builtins as _b
                 cand = getattr(_b, c.name.split(".", 1)[1], None)
                 py = cand if isinstance(cand, type) else None
+            if py is None:
+                lv_ = _lib_value(c.name)
+                py = lv_ if isinstance(lv_, type) else None
             if py is not None:
                 return isinstance(v, py) and not isinstance(v, Obj)
             return False
@@ -1133,6 +1147,10 @@ class Interp:
             return getattr(o, attr)
         if o is None:
             raise AbsRaise(f"AttributeError: NoneType.{attr}")
+        import pathlib as _pl
+        if isinstance(o, _pl.PurePath) and attr in ("with_suffix", "with_name", "with_stem", "name", "suffix", "suffixes", "stem", "parent", "parts",
+                                                    "joinpath", "as_posix"):
+            return getattr(o, attr)  # pure path arithmetic (no file system access)
         if isinstance(o, str) and attr in ("__context__", "__cause__", "__traceback__", "__suppress_context__", "__notes__"):
             # an abstract exception given only by its name ("KeyError: x"): the chaining attributes it carries are kept beside it
             return getattr(self, "_exc_attrs", {}).get((o, attr), False if attr == "__suppress_context__" else None)
@@ -1196,6 +1214,8 @@ _LIB_ALLOWED = {
     "operator": {"getitem", "add", "sub", "mul", "eq", "ne", "lt", "le", "gt", "ge", "not_", "truth", "is_", "is_not", "contains", "neg",
                  "index", "setitem", "delitem", "concat"},
     "math": {"floor", "ceil", "isnan", "isinf", "sqrt", "inf", "nan"},
+    # pure path arithmetic (construction and name manipulation do not touch the file system)
+    "pathlib": {"PurePath", "PurePosixPath", "Path", "PosixPath"},
 }
 
 
